@@ -172,6 +172,24 @@ def _get_used_variables(stmt: Statement) -> frozenset[str]:
     return stmt.used_variables()
 
 
+def _asserted_variables(stmt: Statement) -> set[str]:
+    """Return the variables that the assertions attached to *stmt* refer to.
+
+    Args:
+        stmt: The statement whose assertions are inspected.
+
+    Returns:
+        The root variable names of the assertions' sources.
+    """
+    names: set[str] = set()
+    for assertion in stmt.assertions:
+        source = getattr(assertion, "source", None)
+        if isinstance(source, str):
+            # The source may be a dotted attribute path such as ``var_0.attr``.
+            names.add(source.split(".", 1)[0])
+    return names
+
+
 def _uses_variable(stmt: Statement, var_name: str) -> bool:
     """Return True if *var_name* is used (read) anywhere in *stmt*'s CST.
 
@@ -596,6 +614,9 @@ class TestCase:  # noqa: PLR0904
         for i in range(len(self._statements) - 1, -1, -1):
             stmt = self._statements[i]
             bv = stmt.bound_variable
+            # An assertion reads its source variable after the statement: the
+            # variable must stay bound, here and for every earlier statement.
+            alive_vars.update(_asserted_variables(stmt))
 
             if bv is not None:
                 if bv in alive_vars:
@@ -610,6 +631,9 @@ class TestCase:  # noqa: PLR0904
                             node=new_node,
                             bound_variable=None,
                             bound_type=None,
+                            assertions=list(stmt.assertions),
+                            accessible=stmt.accessible,
+                            ml_info=stmt.ml_info,
                         )
                     # Even if unused, the RHS might use other variables
                     alive_vars.update(_get_used_variables(stmt))
